@@ -913,7 +913,7 @@ def forms_cross(shape, kind, r0, dr_min, dr_max, stop, seed, with_cache, form):
     if form.get('vform'):
         I = gen.all_indices(shape)
         fi, _, fy = form['vform'].partition('|')
-        kw.update(I_vld=gen.idx_form(I, fi), y_vld=gen.val_form(np.asarray(f0(I), dtype=float) + 1., fy)[0], e_vld=1e-3)
+        kw.update(I_vld=gen.idx_form(I, fi), y_vld=gen.val_form(np.asarray(f0(I), dtype=float) + 1.5, fy)[0], e_vld=1e-3)   # + 1.5: never the zero vector (a zero validation vector gives e_vld = inf, outside the property)
     if form.get('num'):
         kw = gen.num_kwargs(kw, form['num'], ('nswp', 'm', 'e', 'e_vld', 'dr_min', 'dr_max', 'k0'))
     info = {}
